@@ -4,7 +4,9 @@ C13 — record chunks are replayable: property theorems.
 Model: `Hts.Model.Bgzf.BamReader` / `Iterator` (bam/reader.go newBuffer, Read's limit test, SetChunk, Iterator) and
 `Hts.Model.Bgzf.ChunkReader` (bgzf/index/index.go) over the bgzf reader model of C02.  A BAM file is any
 well-formed BGZF file (any block layout: records may end on, before or after block ends and span blocks; empty
-blocks anywhere) whose flat stream is a header followed by length-prefixed records.
+blocks anywhere) whose flat stream is a header followed by length-prefixed records.  The bgzf reader is the
+sequential one (rd = 1, no cache); C02's `readahead_history_returns_flat_bytes` is the statement for rd > 1.
+Records are opaque bodies (decoding is C05/C11).
 -/
 import Hts.Lemmas.BamFile
 import Hts.Lemmas.CRRun
@@ -139,6 +141,64 @@ theorem iterator_replay {F : File} {hs : List Nat} {bs : List (List UInt8)} (hB 
   rw [hmap]
   rw [← List.map_cons, hreq] at this
   exact this
+
+/-- With no chunks left the `Next` loop is the plain `Read` loop. -/
+theorem collect_nil_eq_readN (fuel : Nat) (br : BamReader) :
+    ((Iterator.mk br [] none).collect fuel).2 = (br.readN fuel).2.1.map (·.1) := by
+  induction fuel generalizing br with
+  | zero => rfl
+  | succ k ih =>
+    simp only [Iterator.collect, Iterator.next, Iterator.nextAux, BamReader.readN]
+    cases h : br.read with
+    | mk br' res =>
+      cases res with
+      | ok rec => simp only [List.map_cons, ih br']
+      | error e => rfl
+
+/-- **Iterator over the empty list** (`NewIterator(r, nil)`: `return &Iterator{r: r}, nil`): no `SetChunk`, so the
+iterator is the reader as it stands — it yields what `Read` yields from the reader's current position under the
+reader's current chunk limit, not the empty list of records.  `iterator_replay` therefore needs `q :: qs`. -/
+theorem iterator_empty_is_reader (br : BamReader) (fuel : Nat) :
+    Iterator.new br [] = .ok ⟨br, [], none⟩ ∧
+    ((Iterator.mk br [] none).collect fuel).2 = (br.readN fuel).2.1.map (·.1) :=
+  ⟨rfl, collect_nil_eq_readN fuel br⟩
+
+/-- Witness that `iterator_replay` is false for the empty request list: over `exBam`, from the fresh reader, the
+iterator over no chunks yields both records. -/
+theorem iterator_replay_empty_witness :
+    ∃ br0, BamReader.new exBam [4] = .ok br0 ∧ ∃ it, Iterator.new br0 [] = .ok it ∧
+      (it.collect 3).2 = [[9], [7, 8]] ∧ (it.collect 3).2 ≠ requested (bs := [[9], [7, 8]]) [] :=
+  ⟨_, rfl, _, rfl, by decide, by decide⟩
+
+/-- `newBuffer` reports `io.EOF` only at a record boundary: the stream ended before the first byte of a size
+field, or the size field is 0.  A stream that ends after a size field (even with no byte of the body) is
+`io.ErrUnexpectedEOF` (bam/reader.go: `if err == io.EOF { err = io.ErrUnexpectedEOF }`), so `Iterator.Next`
+stops there instead of moving on to the next chunk. -/
+theorem newBuffer_eof_only_at_record_boundary (br : BamReader) (h : br.newBuffer.2 = .error .eof) :
+    (readFull br.r 4).2.2 = some .eof ∨
+    ((readFull br.r 4).2.2 = none ∧ leInt32 (readFull br.r 4).2.1 = 0) := by
+  unfold BamReader.newBuffer at h
+  rcases h4 : readFull br.r 4 with ⟨r1, szb, e1⟩
+  rw [h4] at h
+  cases e1 with
+  | some e => simp only at h; left; simp at h; simp [h]
+  | none =>
+    simp only at h
+    by_cases hz : leInt32 szb = 0
+    · right; exact ⟨rfl, hz⟩
+    · simp only [hz, if_false] at h
+      by_cases hn : leInt32 szb < 0
+      · simp [hn] at h
+      · simp only [hn, if_false] at h
+        rcases hb : readFull r1 (leInt32 szb).toNat with ⟨r2, body, e2⟩
+        rw [hb] at h
+        cases e2 with
+        | none => simp at h
+        | some e => 
+          simp only at h
+          by_cases he : e = .eof
+          · simp [he] at h
+          · simp [he] at h
 
 /-- Every state a `bam.Reader` can be driven into by `Read`, `SetChunk` (to a chunk whose `Begin` is a seek
 target) and `SetChunk(nil)` is one of the states the two theorems above quantify over. -/
